@@ -123,24 +123,28 @@ func DrainDecode() {
 	sym.Assert(p.PendingCount() >= 1, "a block queued for the apply stage is counted as pending")
 }
 
-// DrainApply (C43): while the apply function runs for a block the block is counted as
-// pending, and once every submitted block has left the apply stage nothing is.
+// DrainApply (C43): two blocks are submitted (a third submission fails under back-pressure);
+// while the apply function runs for the k-th block, at least the blocks not yet finished are
+// counted as pending, and once both have left the apply stage nothing is.
 func DrainApply() {
 	live := mkCtx(false)
-	seen := -1
+	var seen []int
 	var p *pipeline.BlockPipeline
 	p = pipeline.VerifNewStartedPipeline(2, live, func(it *pipeline.BlockItem) error {
-		seen = p.PendingCount()
+		seen = append(seen, p.PendingCount())
 		return nil
 	})
 	sym.Assume(p.Submit(mkCtx(false), 0, nil, pcommon.Tip{}) == nil)
+	sym.Assume(p.Submit(mkCtx(false), 0, nil, pcommon.Tip{}) == nil)
+	sym.Assert(p.Submit(mkCtx(true), 0, nil, pcommon.Tip{}) != nil, "a submission whose context expired under back-pressure fails")
+	sym.Assert(p.PendingCount() == 2, "two accepted blocks are pending, the failed submission is not")
 	close(pipeline.VerifSubmitChan(p))
 	other := -1
 	pipeline.VerifDecodeWorker(p, probeStage{p, &other}, live)
 	close(pipeline.VerifDecodedChan(p))
 	pipeline.VerifApplyRunner(p, live)
 	sym.Reach("probed")
-	sym.Assert(seen >= 1, "a block being applied is counted as pending")
+	sym.Assert(len(seen) == 2 && seen[0] >= 2 && seen[1] >= 1, "blocks not yet finished are counted as pending while earlier ones are applied")
 	sym.Assert(p.PendingCount() == 0, "once every submitted block has left the apply stage nothing is pending")
 }
 
